@@ -51,7 +51,7 @@ def configs(tier):
     add("fast", "k3c3", 3, 1)
     add("fast", "k2k2", 3, 1)
     add("fast", "k2k3k2", 2, 2)
-    for motif in ("bare-t", "hub2+tri", "hub2+bare", "tri+tri2", "hub2-rev+bare"):
+    for motif in ("bare-t", "hub2+tri", "hub2+bare", "tri+tri2", "hub2-rev+bare", "tri-gen", "path2-repeat"):
         add("motifs", motif, 3, 1)
     add("motifs", "hub2+tri", 2, 3)
     # a second call on the same generator object (state carried between calls)
